@@ -87,7 +87,13 @@ func vC11SamePools(sp *StakePool, pre map[string]vC11Pool, except string) bool {
 }
 
 // VerifC11_lock: one lock from an arbitrary pool state.
-func VerifC11_lock() {
+func VerifC11_lock() { verifC11Lock(false) }
+
+// VerifC04_lock / VerifC04_unlock: the same steps, asserting only who pays (C04).
+func VerifC04_lock()   { verifC11Lock(true) }
+func VerifC04_unlock() { verifC11Unlock(true) }
+
+func verifC11Lock(onlyAuth bool) {
 	t := &transaction.Transaction{}
 	t.ClientID = []string{vC11A, vC11X}[sym.Choice("staker", 0, 1)]
 	t.ToClientID = vC11Contract
@@ -116,6 +122,13 @@ func VerifC11_lock() {
 
 	tr := balances.GetTransfers()
 	post := vC11Load(trie)
+	if onlyAuth {
+		if err == nil {
+			sym.Cover("lock-accepted")
+			symstate.AssertAuthorised(balances, t, vC11Contract, vC11Minter())
+		}
+		return
+	}
 	if err != nil {
 		sym.Cover("lock-rejected")
 		// (whatever a failing call wrote or queued is discarded by the chain: C02)
@@ -141,7 +154,9 @@ func VerifC11_lock() {
 }
 
 // VerifC11_unlock: one unlock from an arbitrary pool state by the owner, another delegate or a stranger.
-func VerifC11_unlock() {
+func VerifC11_unlock() { verifC11Unlock(false) }
+
+func verifC11Unlock(onlyAuth bool) {
 	t := &transaction.Transaction{}
 	t.ClientID = []string{vC11A, vC11B, vC11X, vC11Wallet}[sym.Choice("caller", 0, 3)]
 	t.ToClientID = vC11Contract
@@ -158,6 +173,13 @@ func VerifC11_unlock() {
 	tr := balances.GetTransfers()
 	post := vC11Load(trie)
 	mine, owns := pre[t.ClientID]
+	if onlyAuth {
+		if err == nil {
+			sym.Cover("unlock-accepted")
+			symstate.AssertAuthorised(balances, t, vC11Contract, vC11Minter())
+		}
+		return
+	}
 	if err != nil {
 		sym.Cover("unlock-rejected")
 		return
@@ -182,4 +204,12 @@ func VerifC11_unlock() {
 	sym.Assert(!still, "the delegate pool is removed")
 	sym.Assert(vC11SamePools(post, pre, t.ClientID), "no other delegate pool changes")
 	sym.Assert(post.Reward == provReward, "the provider's own reward is untouched by a delegate's unlock")
+}
+
+func vC11Minter() string {
+	m, err := cstate.GetMinter(cstate.MinterMiner)
+	if err != nil {
+		panic(err)
+	}
+	return m
 }
